@@ -82,12 +82,9 @@ Definition normalize_char (s : bytes) (n : Z) : trace * nres :=
   else if n <? c then ([], NOk (BV (VCharacter (take_chars (Z.to_nat n) s))))
   else ([], NOk (BV (VCharacter s))).
 
+(** VARCHAR(n) / NAME: cut at the last character boundary at or below byte [n] *)
 Definition truncate_varchar (s : bytes) (n : Z) : nres :=
-  if n <? blen s then
-    match slice_to s n with
-    | Some p => NOk (BV (VVarchar p))
-    | None => NPanic PSlice
-    end
+  if n <? blen s then NOk (BV (VVarchar (truncate_at_char_boundary s n)))
   else NOk (BV (VVarchar s)).
 
 Definition keep_if (c : bool) (v : bvalue) : trace * nres := ([], if c then NOk v else NErr).
